@@ -17,7 +17,7 @@ from .common import Ctx, VERIF
 from . import kalman_shared as ks
 
 DRIVERS = ["C03"]
-EXTRA_PROPS = ['KalmanBridge']   # refinement bridge from the executable QMat model to the matrix-level theorems (audited with this check)
+EXTRA_PROPS = ['KalmanBridge', 'GenTieCore', 'GenTieC03']   # refinement bridge from the executable QMat model to the matrix-level theorems (audited with this check)
 LEVEL = "proof"
 MANIFEST = {
     "category": "proof",
@@ -38,7 +38,11 @@ MANIFEST = {
              "mean in every period. The executable model (exact rationals, same operation structure as fords/kalmans.py incl. per-period "
              "row selection, time-varying std, unknown-initial GLS correction) is tied to the code on every run by tolerance-class "
              "correspondence on direct calls and through Simultaneous.kalman_filter, and an independent numpy batch-conditioning oracle on "
-             "the real code supplies the replay."),
+             "the real code supplies the replay. Also modelled and proved (Props/KalmanVariants, Props/KalmanObject): the per-variant loop with "
+             "variance rescaling (variant locality; every reported MSE rescaled exactly once by its own variant's scale; stream "
+             "variants-model via driver op kfv) and the solved model object as a state machine (assign / rescale_stds / copy / filter / "
+             "memoised expansions extended on demand) refining its stateless specification for every call history (stream "
+             "object-history via driver op obj)."),
     "design": "7/C03",
     "note": ("log det is taken in the harness (the model returns det Fi_t exactly); floating point, LAPACK inverse and the QZ solution are "
              "unmodelled substrate; tolerances 1e-8 relative on generator-controlled instances with cond(F_t) <= 1e6. The abstract Mathlib "
@@ -405,7 +409,8 @@ def run_variants(ctx: Ctx, cases, n_model=0):
                 f["case"] = {"stream": "variants", "case": c}; f["site"] = f["site"].replace("e2e-", "variants-")
         if ci < n_model:
             try:
-                mvs = list(m.iter_variants())
+                import itertools
+                mvs = list(itertools.islice(m.iter_variants(), nv))
                 parts, maps = [], []
                 for v in range(nv):
                     lc, mp = ks.lean_case_of_e2e(cvs[v], mvs[v])
@@ -505,6 +510,87 @@ def run_callseq(ctx: Ctx, cases):
                 if f["case"].get("stream") == "e2e":
                     f["case"] = cw; f["site"] = f["site"].replace("e2e-", "callseq-")
                     f["detail"] = f"call {k} {call} after {[(x['kind'], x.get('deviation')) for x in c['calls'][:k]]}: " + f["detail"]
+
+
+def run_object_history(ctx: Ctx, rng, n):
+    """the solved model object as a state machine (Lean: Model/KalmanObject.lean, Props/KalmanObject.lean `run_refines_spec`):
+    histories of assign / rescale_stds / copy / filter (observation: the shock stds the filter run reports) / expansion requests of
+    growing and shrinking horizon on the square and triangular memo, replayed op by op on the model (`obj`) and on the real object"""
+    lines, keep = [], []
+    for i in range(n):
+        r = rng.fork(i)
+        mc = ks.gen_model(r, forward=True)
+        data = ks.gen_data(r, mc, 4)
+        data["std_e_t"] = None; data["std_w_t"] = None
+        try:
+            m = ks.build_model(mc)
+            sol = m._gets_solution()
+            if any(getattr(sol, k) is None for k in ("X", "Xa", "J", "Ru")):
+                ctx.count("object-history:no_expansion_skipped"); continue
+        except Exception:
+            ctx.count("object-history:unsolvable_skipped"); continue
+        ctx.evaluations += 1
+        start, span = ks.e2e_span(4)
+        db = ks.databox_of(mc, data, start)
+        ne, nw = len(mc["std_e"]), len(mc["std_w"])
+        head = ["obj"] + [ks.mat_text(getattr(sol, k)) for k in ("X", "Xa", "J", "Ru")]
+        head += [str(ne)] + [ks.rat_of_float(v) for v in mc["std_e"]] + [str(nw)] + [ks.rat_of_float(v) for v in mc["std_w"]]
+        ops, outs = [], []
+        for _ in range(r.randint(6, 10)):
+            kind = r.weighted([("aE", 2), ("aW", 1), ("rs", 2), ("cp", 1), ("fl", 3), ("xs", 3), ("xt", 3)])
+            ctx.count("object-history:op=" + kind)
+            try:
+                if kind == "aE":
+                    v = [r.choice([0.2, 0.5, 1.0, 1.3, 2.0]) for _ in range(ne)]
+                    m.assign(**{f"std_e{j}": x for j, x in enumerate(v)})
+                    ops.append(" ".join(["aE", str(ne)] + [ks.rat_of_float(x) for x in v])); outs.append(None)
+                elif kind == "aW":
+                    v = [r.choice([0.1, 0.3, 0.7]) for _ in range(nw)]
+                    if nw: m.assign(**{f"std_w{j}": x for j, x in enumerate(v)})
+                    ops.append(" ".join(["aW", str(nw)] + [ks.rat_of_float(x) for x in v])); outs.append(None)
+                elif kind == "rs":
+                    f = r.choice([0.5, 2.0, 1.5, 3.0]); m.rescale_stds(f)
+                    ops.append("rs " + ks.rat_of_float(f)); outs.append(None)
+                elif kind == "cp":
+                    m = m.copy(); sol = m._gets_solution()
+                    ops.append("cp"); outs.append(None)
+                elif kind == "fl":
+                    o = m.kalman_filter(db, span, return_=("predict",))
+                    outs.append(("S", [float(ks.series_values(o["predict_std"], f"e{j}", span)[0]) for j in range(ne)],
+                                 [float(ks.series_values(o["predict_std"], f"w{j}", span)[0]) for j in range(nw)]))
+                    ops.append("fl")
+                else:
+                    fwd = r.randint(0, 6)
+                    res = (sol.expand_square_solution(fwd) if kind == "xs" else sol.expand_triangular_solution(fwd))[1:]
+                    outs.append(("M", [np.array(x, dtype=float) for x in res])); ops.append(f"{kind} {fwd}")
+            except Exception as e:
+                fail(ctx, "object-history-raises", {"stream": "object-history", "mc": mc, "ops": ops}, f"{kind}: {e!r}"[:300]); break
+        lines.append(" ".join(head + [str(len(ops))] + ops)); keep.append((mc, ops, outs))
+        ctx.nontriv(("object-history", json.dumps(mc, sort_keys=True), tuple(ops)))
+        if i < 1:
+            ctx.sample({"stream": "object-history", "ops": ops})
+    replies = ctx.model("C03", lines) if lines else None
+    if replies is None:
+        return
+    for (mc, ops, outs), rep in zip(keep, replies):
+        ctx.streams_compared["object-history"] = ctx.streams_compared.get("object-history", 0) + 1
+        case = {"stream": "object-history", "mc": mc, "ops": ops}
+        if not rep.startswith("ok"):
+            ctx.disagree("object-history", case, "ok", rep[:100]); continue
+        tk = ks._Tok(rep); tk.word(); bad = []
+        for k, o in enumerate(outs):
+            tag = tk.word()
+            if tag == "-":
+                if o is not None: bad.append((k, "kind"))
+            elif tag == "S":
+                e = [float(tk.rat()) for _ in range(int(tk.word()))]; wv = [float(tk.rat()) for _ in range(int(tk.word()))]
+                if o is None or o[0] != "S" or not ks.close(o[1], e, 1e-12) or not ks.close(o[2], wv, 1e-12): bad.append((k, ops[k], "stds"))
+            else:
+                mats = [tk.mat() for _ in range(int(tk.word()))]
+                if o is None or o[0] != "M" or len(o[1]) != len(mats) or any(not ks.close(a, b, 1e-9) for a, b in zip(o[1], mats)):
+                    bad.append((k, ops[k], "expansion"))
+        if bad:
+            ctx.disagree("object-history", case, f"observations differ at {bad[:5]}", "state machine = stateless spec")
 
 
 def run_config(ctx: Ctx, cases):
@@ -614,6 +700,7 @@ def run(ctx: Ctx):
     rng = ctx.rng.fork("noncontiguous")
     ncases = [ks.gen_e2e_case(rng.fork(i), 9 if ctx.quick else 12, noncontiguous=True) for i in range(ctx.n(14, 200))]
     run_e2e(ctx, ncases, ctx.n(3, 20))
+    run_object_history(ctx, ctx.rng.fork("object-history"), ctx.n(12, 150))
     rng = ctx.rng.fork("callseq")
     run_callseq(ctx, [ks.gen_callseq_case(rng.fork(i)) for i in range(ctx.n(14, 200))])
     prune(ctx)
